@@ -60,6 +60,7 @@ enum Act {
   Count(usize),
   BlockOn(usize),
   Using(usize),
+  UsingPanic(usize),
   Repoll(usize),
   Connect(usize, usize),
   Disconnect(usize),
@@ -235,6 +236,10 @@ fn parse_act(x: &Sx, c: &Counts) -> ActN {
     "using" => {
       need(2);
       Act::Using(parse_slot(&l[1]))
+    }
+    "using-panic" => {
+      need(2);
+      Act::UsingPanic(parse_slot(&l[1]))
     }
     "repoll" => {
       need(2);
@@ -671,6 +676,16 @@ fn exec(cx: &Cx, a: &ActN) {
       if let Some(s) = s {
         let guard = utils::Using::new(s);
         drop(guard);
+      }
+    }
+    Act::UsingPanic(u) => {
+      // the scope that owns the guard unwinds (the panic is contained here): dropping the guard must still unsubscribe
+      let s = o.slots.lock().unwrap().get(u).cloned();
+      if let Some(s) = s {
+        let _ = std::panic::catch_unwind(std::panic::AssertUnwindSafe(move || {
+          let _guard = utils::Using::new(s);
+          std::panic::resume_unwind(Box::new("the scope of the guard unwinds"));
+        }));
       }
     }
     Act::Connect(c, x) => {
